@@ -395,6 +395,7 @@ func main() {
 	res := vh.NewResult()
 	var cases []Case
 	var heapReplay *heapCase
+	var encReplay *encCase
 
 	if *replay != "" {
 		b, err := os.ReadFile(*replay)
@@ -407,10 +408,21 @@ func main() {
 		var hp struct {
 			Input heapCase `json:"input"`
 		}
-		if err := json.Unmarshal(b, &hp); err == nil && len(hp.Input.Ops) > 0 {
+		var ep struct {
+			Input struct {
+				encCase
+				GRPCShape *Shape `json:"grpc_shape"`
+			} `json:"input"`
+		}
+		if err := json.Unmarshal(b, &ep); err == nil && (ep.Input.Shape != nil || ep.Input.GRPCShape != nil) {
+			encReplay = &ep.Input.encCase
+			if encReplay.Shape == nil {
+				encReplay = &encCase{Formatter: "default", Encoding: "json", Shape: ep.Input.GRPCShape}
+			}
+		} else if err := json.Unmarshal(b, &hp); err == nil && len(hp.Input.Ops) > 0 {
 			heapReplay = &hp.Input
 		} else if err := json.Unmarshal(b, &rp); err != nil || rp.Input.Tree == nil {
-			fmt.Println("replay file has no merge-tree or merge-history input")
+			fmt.Println("replay file has no merge-tree, merge-history or error-encoder input")
 			os.Exit(2)
 		} else {
 			cases = append(cases, rp.Input)
@@ -578,9 +590,10 @@ func main() {
 	}
 
 	nheap := runHeap(rng, *tier, *out, res, heapReplay)
-	res.Evaluations = len(cases) + idx + nheap
+	nenc := runEncode(rng, *tier, *out, res, encReplay)
+	res.Evaluations = len(cases) + idx + nheap + nenc
 	res.Distinct = len(distinct)
-	res.Rule = "merge trees: every tree shape over 1..N leaves (N=5 quick, 8 thorough) x random leaf vectors from {nil, plain, service(all flag/name/field/cause combinations), wrapped service}, plus random shapes over 2-8 leaves; merge HISTORIES over 2-5 error variables with operands reused after they were merged into (MergeErrors updates its first argument in place); non-trivial = at least two non-nil leaves, distinct = distinct (leaf vector, shape); status: all 8 flag vectors x 5 names x {direct, wrapped} + plain errors (exhaustive); client-side flags for every status code 100-599 (exhaustive)"
+	res.Rule = "merge trees: every tree shape over 1..N leaves (N=5 quick, 8 thorough) x random leaf vectors from {nil, plain, service(all flag/name/field/cause combinations), wrapped service}, plus random shapes over 2-8 leaves; merge HISTORIES over 2-5 error variables with operands reused after they were merged into (MergeErrors updates its first argument in place); non-trivial = at least two non-nil leaves, distinct = distinct (leaf vector, shape); status: all 8 flag vectors x 5 names x {direct, wrapped} + plain errors (exhaustive); client-side flags for every status code 100-599 (exhaustive); error encoder (goahttp.ErrorEncoder on an httptest recorder, and goagrpc.EncodeError): all 8 flag vectors x 5 names x 10 ways of holding the service error (bare, wrapped once/twice by fmt.Errorf or by a type with Unwrap, joined left/right, joined under wrappers, two service errors joined) + errors holding no service error + random shapes (wrapper chains of 0-12 links, joins, depth <= 4 nestings) x {default formatter JSON, default formatter XML, two custom formatters}"
 	for _, c := range cases {
 		res.Cases = append(res.Cases, c)
 	}
